@@ -1,7 +1,7 @@
 /* Function contract of tinyjambu_aead_check_tag (src/backend/tinyjambu-util.c), attached by re-declaration.
    C03: the result is 0 or -1, and -1 whenever ANY tag byte differs (ghost index tjv_j);
    C04: on -1 every plaintext byte is 0, on 0 every byte is unchanged (ghost index tjv_k);
-   C06: frame = the plaintext object only. */
+   C06: frame = exactly plaintext[0 .. plaintext_len): nothing else in the same object (in place: the 8 tag bytes behind it). */
 #ifndef TJV_C_UTIL_H
 #define TJV_C_UTIL_H
 #include <stddef.h>
@@ -14,7 +14,7 @@ __CPROVER_requires(plaintext_len <= ((size_t)1 << 40) && size <= 64)
 __CPROVER_requires(__CPROVER_is_fresh(plaintext, plaintext_len))
 __CPROVER_requires(__CPROVER_is_fresh(tag1, size))
 __CPROVER_requires(__CPROVER_is_fresh(tag2, size))
-__CPROVER_assigns(__CPROVER_object_whole(plaintext))
+__CPROVER_assigns(__CPROVER_object_upto(plaintext, plaintext_len))
 __CPROVER_ensures(__CPROVER_return_value == 0 || __CPROVER_return_value == -1)
 __CPROVER_ensures((tjv_j < size && tag1[tjv_j] != tag2[tjv_j]) ==> __CPROVER_return_value == -1)
 __CPROVER_ensures((tjv_k < plaintext_len && __CPROVER_return_value == -1) ==> plaintext[tjv_k] == 0)
